@@ -13,6 +13,24 @@
 #include "nanoisa/verifier.h"
 #include "nanovm/vm.h"
 #include "nanovm/heap.h"
+#include <malloc.h>
+
+/* Every reallocation moves the block (and scribbles over the old one): code that keeps a pointer into a buffer across a call
+ * that may grow it - the operand stack, an array's element vector - shows at once instead of depending on the allocator's mood.
+ * A sanitizer build has its own allocator, which already never extends in place. */
+#if !defined(__SANITIZE_ADDRESS__)
+void *realloc(void *p, size_t n) {
+    if (!p) return malloc(n);
+    if (n == 0) { free(p); return NULL; }
+    void *q = malloc(n);
+    if (!q) return NULL;
+    size_t old = malloc_usable_size(p);
+    memcpy(q, p, old < n ? old : n);
+    memset(p, 0xA5, old);
+    free(p);
+    return q;
+}
+#endif
 
 int g_argc = 0;
 char **g_argv = NULL;
